@@ -752,15 +752,15 @@ func vhFrontPerturbation() (vhFrontPerturb, bool) {
 		nIndent, nFree, nLead = 1, 1, 1
 	}
 	p := vhFrontPerturb{
-		indent:      []string{"", "\t", "   "}[symxChoice("indent", nIndent)],
-		free:        []string{"Op does things", "Déjà vu: 10€ ∀x"}[symxChoice("free", nFree)],
-		verb:        []string{"POST", "FOO", ""}[symxChoice("verb", 3)],
-		lead:        []string{"", "/* é€ */ "}[symxChoice("lead", nLead)], // multibyte characters before the annotation, on its line
-		urlName:     []string{"id", "other"}[symxChoice("urlName", 2)],
-		pathRef:     []string{"id", "zz"}[symxChoice("pathRef", 2)],
-		query:       []string{"q", "", "zz"}[symxChoice("query", 3)],
-		qType:       []string{"int", "Model", "[]int"}[symxChoice("qType", 3)],
-		ret:         []string{"error", "(Model, error)", "(Model, string)", ""}[symxChoice("ret", 4)],
+		indent:  []string{"", "\t", "   "}[symxChoice("indent", nIndent)],
+		free:    []string{"Op does things", "Déjà vu: 10€ ∀x"}[symxChoice("free", nFree)],
+		verb:    []string{"POST", "FOO", ""}[symxChoice("verb", 3)],
+		lead:    []string{"", "/* é€ */ "}[symxChoice("lead", nLead)], // multibyte characters before the annotation, on its line
+		urlName: []string{"id", "other"}[symxChoice("urlName", 2)],
+		pathRef: []string{"id", "zz"}[symxChoice("pathRef", 2)],
+		query:   []string{"q", "", "zz"}[symxChoice("query", 3)],
+		qType:   []string{"int", "Model", "[]int"}[symxChoice("qType", 3)],
+		ret:     []string{"error", "(Model, error)", "(Model, string)", ""}[symxChoice("ret", 4)],
 	}
 	// a method without @Method is not an endpoint at all (C01): whatever else it carries is not looked at
 	valid := p.verb == "" || p.verb == "POST" && p.urlName == "id" && p.pathRef == "id" && p.query == "q" && p.qType != "Model" && (p.ret == "error" || p.ret == "(Model, error)")
@@ -1540,19 +1540,19 @@ func vh_C10_front_anomalies_Q() {
 	variants := []variant{
 		{base + "// @Body(b)\n", "(id string, b Model) error", true},
 		{base + "// @Body(b)\n", "(ctx context.Context, id string, b Model) (Model, error)", true},
-		{base + "// @Body(a)\n// @Body(b)\n", "(id string, a Model, b Model) error", false},                          // two bodies
-		{base + "// @Body(b)\n// @FormField(f)\n", "(id string, b Model, f string) error", false},                   // body together with a form field
-		{base + "// @Query(b)\n", "(id string, b Model) error", false},                                                 // struct in the query
+		{base + "// @Body(a)\n// @Body(b)\n", "(id string, a Model, b Model) error", false},                                                // two bodies
+		{base + "// @Body(b)\n// @FormField(f)\n", "(id string, b Model, f string) error", false},                                          // body together with a form field
+		{base + "// @Query(b)\n", "(id string, b Model) error", false},                                                                     // struct in the query
 		{"// @Method(POST)\n// @Route(/op/{id})\n// @Path(id)\n// @Path(id2, { name: \"id\" })\n", "(id string, id2 string) error", false}, // two bindings of one URL name
-		{base + "// @Body(b)\n", "(id string, b Model) (error, Model)", false},                                       // error not last
-		{base + "// @Body(b)\n", "(id string, b Model) (Model, Model, error)", false},                                // three return values
-		{base + "// @Body(b)\n", "(id string, b Model) Model", false},                                                // no error
-		{base + "// @Body(b)\n// @Query(b)\n", "(id string, b Model) error", false},                                  // one parameter referenced twice
-		{base, "(id string, extra int) error", false},                                                                  // unreferenced parameter
-		{base + "// @Header(h)\n// @FormField(f)\n", "(id string, h int, f bool) error", true},                       // header and form field of primitive types
-		{"// @Method(PATCH)\n// @Route(/op/{id})\n// @Path(id)\n", "(id string) error", true},                          // a supported verb
-		{"// @Method(TRACE)\n// @Route(/op/{id})\n// @Path(id)\n", "(id string) error", false},                         // a verb routes do not support
-		{"// @Method(post)\n// @Route(/op/{id})\n// @Path(id)\n", "(id string) error", false},                          // verbs are upper case
+		{base + "// @Body(b)\n", "(id string, b Model) (error, Model)", false},                                                             // error not last
+		{base + "// @Body(b)\n", "(id string, b Model) (Model, Model, error)", false},                                                      // three return values
+		{base + "// @Body(b)\n", "(id string, b Model) Model", false},                                                                      // no error
+		{base + "// @Body(b)\n// @Query(b)\n", "(id string, b Model) error", false},                                                        // one parameter referenced twice
+		{base, "(id string, extra int) error", false},                                                                                      // unreferenced parameter
+		{base + "// @Header(h)\n// @FormField(f)\n", "(id string, h int, f bool) error", true},                                             // header and form field of primitive types
+		{"// @Method(PATCH)\n// @Route(/op/{id})\n// @Path(id)\n", "(id string) error", true},                                              // a supported verb
+		{"// @Method(TRACE)\n// @Route(/op/{id})\n// @Path(id)\n", "(id string) error", false},                                             // a verb routes do not support
+		{"// @Method(post)\n// @Route(/op/{id})\n// @Path(id)\n", "(id string) error", false},                                              // verbs are upper case
 	}
 	v := variants[symxChoice("variant", len(variants))]
 	src := `package ctl
